@@ -114,14 +114,19 @@ def nsContains (ns needle : List String) : Bool :=
 
 /-! ## values (`Value`) -/
 
+/-- the integer variants of `SupportedScalar` -/
+inductive IK where
+  | i8 | i16 | i32 | i64 | i128 | isize | u8 | u16 | u32 | u64 | u128 | usize
+deriving Inhabited, Repr, BEq, DecidableEq
+
 inductive Scalar where
-  | num (kind : String) (v : Int)
+  | num (kind : IK) (v : Int)
   | f32 (bits : Nat) | f64 (bits : Nat) | bool (b : Bool) | chr (c : Nat) | empty
 deriving Inhabited, Repr, BEq
 
 /-- `ScalarValue::try_as_number` -/
 def Scalar.asNumber : Scalar → Option Int
-  | .num k v => if k == "i128" || k == "u128" then none else some (wrapI64 v)
+  | .num k v => if k = .i128 ∨ k = .u128 then none else some (wrapI64 v)
   | _ => none
 
 inductive Val where
@@ -323,12 +328,12 @@ def memberData (c : Ctx) (m : Member) (d : Data) : Option Data := do
   let bs ← sliceBytes d.bytes off.toNat size
   some ⟨bs, d.addr.map (· + off.toNat)⟩
 
-def intKind (signed : Bool) (size : Nat) (name : Option String) : Option String :=
+def intKind (signed : Bool) (size : Nat) (name : Option String) : Option IK :=
   match signed, size with
-  | true, 1 => some "i8" | true, 2 => some "i16" | true, 4 => some "i32"
-  | true, 8 => some (if name == some "isize" then "isize" else "i64") | true, 16 => some "i128"
-  | false, 1 => some "u8" | false, 2 => some "u16" | false, 4 => some "u32"
-  | false, 8 => some (if name == some "usize" then "usize" else "u64") | false, 16 => some "u128"
+  | true, 1 => some .i8 | true, 2 => some .i16 | true, 4 => some .i32
+  | true, 8 => some (if name == some "isize" then .isize else .i64) | true, 16 => some .i128
+  | false, 1 => some .u8 | false, 2 => some .u16 | false, 4 => some .u32
+  | false, 8 => some (if name == some "usize" then .usize else .u64) | false, 16 => some .u128
   | _, _ => none
 
 /-- `parse_scalar`'s value view -/
@@ -336,9 +341,9 @@ def scalarValue (name : Option String) (size : Option Nat) (enc : Option Nat) (d
   let word (k : Nat) : Option Nat := d.bind fun d => if k ≤ d.bytes.length then some (leNat (d.bytes.take k)) else none
   match enc with
   | none => none
-  | some 1 => (word 8).map fun n => .num "usize" n                      -- DW_ATE_address
-  | some 6 => (word 1).map fun n => .num "i8" (toSigned 1 n)             -- DW_ATE_signed_char
-  | some 8 => (word 1).map fun n => .num "u8" n                          -- DW_ATE_unsigned_char
+  | some 1 => (word 8).map fun n => .num .usize n                        -- DW_ATE_address
+  | some 6 => (word 1).map fun n => .num .i8 (toSigned 1 n)             -- DW_ATE_signed_char
+  | some 8 => (word 1).map fun n => .num .u8 n                           -- DW_ATE_unsigned_char
   | some 5 =>                                                             -- DW_ATE_signed
     let sz := size.getD 0
     if sz = 0 then some .empty else
@@ -402,7 +407,7 @@ def lookupTParam (tps : List (String × Option Nat)) (n : String) : Option Nat :
 def extractCapacity (ver : Nat) (v : Val) : Option Nat :=
   if ver < 76 then (assumeScalarNumber v "cap").map Int.toNat
   else match assumeStruct v "cap" with
-    | some (.struct _ _ (.scalar _ (some (.num "usize" c)) :: _) _) => some c.toNat
+    | some (.struct _ _ (.scalar _ (some (.num .usize c)) :: _) _) => some c.toNat
     | _ => none
 
 /-! ### B-tree reflection (`specialization/btree.rs`) -/
@@ -561,7 +566,7 @@ def btFuel : Nat := 100000
 
 def utf8Valid (bs : Bytes) : Bool := ByteArray.validateUTF8 (ByteArray.mk (bs.map UInt8.ofNat).toArray)
 
-def usizeScalar (n : Nat) : Val := .scalar "usize" (some (.num "usize" n))
+def usizeScalar (n : Nat) : Val := .scalar "usize" (some (.num .usize n))
 
 /-- the `VecValue` structure both `Vec` and `VecDeque` produce -/
 def vecStructure (c : Ctx) (origTy : String) (inner : Nat) (items : List Val) (cap : Nat)
